@@ -512,8 +512,18 @@ fn real_checks(w: &World, n: &mut Node, step: usize, after: &str, mism: &mut Vec
 							bad = Some(format!("over_block_weight:{}", wt));
 						} else {
 							b.header.timestamp = head.timestamp + Duration::seconds(30);
-							match n.twin.set_txhashset_roots(&mut b) {
-								Err(e) => bad = Some(format!("set_roots:{:?}", e)),
+							match n.chain.set_txhashset_roots(&mut b) {
+								Err(e) => {
+									if std::env::var("VERIF_DEBUG").is_ok() {
+										let th = n.twin.head().unwrap();
+										let thh = n.twin.header_head().unwrap();
+										eprintln!("set_roots failed: {:?}; twin head h={} {} hdr head h={} {}; main head h={} {}; cand prev {}",
+											e, th.height, th.last_block_h, thh.height, thh.last_block_h, head.height, head.hash(), b.header.prev_hash);
+										let mut b2 = b.clone();
+										eprintln!("same block on main chain: {:?}", n.chain.set_txhashset_roots(&mut b2));
+									}
+									bad = Some(format!("set_roots:{:?}", e))
+								}
 								Ok(()) => {
 									let h = b.hash();
 									if !n.accepted_cands.contains(&h) {
